@@ -45,14 +45,12 @@ theorem slowPathMirror_spec (s : Bytes) (hu : underscoreOK s = true) (hlit : exp
         rw [dval_frac, f2]
     · rw [k2 p hrec hph]; rfl
 
-/-- **parseFloatMirror_correct** — the FULLY MIRRORED model of `bytesconv.ParseFloat(s, 64)`
-(underscore check, special values, `readFloat`, hex path, exact path, and the multiprecision slow
-path `decimal.set` + `decimal.floatBits` with its shifts and cheat table — no specification
-inside) returns exactly what `parseFloatSpec` says, for every byte string whose exponent
-literal is below the clamp, whose mantissa has at most 800 significant digits, and on which
-the slow path drops no non-zero digit. -/
-theorem parseFloatMirror_eq_spec (s : Bytes) (hlit : expLit s < 10000)
-    (hmant : ∀ p, recognise s = some p → p.mant < 10 ^ 800) (hnt : NoTrunc s) :
+/-- the fully mirrored `ParseFloat` agrees with the specification as soon as its slow path does -/
+theorem parseFloatMirror_of_slow (s : Bytes) (hlit : expLit s < 10000)
+    (hslow : underscoreOK s = true → (slowPathMirror s).toExcept =
+      match recognise s with
+      | none => .error .syntax
+      | some p => if p.hex then .error .syntax else p.eval) :
     (parseFloatMirror s).toExcept = parseFloatSpec s := by
   unfold parseFloatMirror parseFloatSpec
   by_cases hu : underscoreOK s = true
@@ -72,7 +70,7 @@ theorem parseFloatMirror_eq_spec (s : Bytes) (hlit : expLit s < 10000)
   | none =>
     simp only []
     obtain ⟨k1, k2⟩ := readFloat_recognise s hu
-    have hslowM := slowPathMirror_spec s hu hlit hmant hnt
+    have hslowM := hslow hu
     cases hrec : recognise s with
     | none =>
       have hok := k1 hrec
@@ -116,5 +114,15 @@ theorem parseFloatMirror_eq_spec (s : Bytes) (hlit : expLit s < 10000)
           have hev := agrees_eval (readFloat s) p (expLit s) ha htr hlit
           rw [(atofHex_spec _ _ _ hm64).1, ← hev, hrh]
         · exact hex_trunc_eval (readFloat s) p (expLit s) ha hph htr hlit
+
+/-- **parseFloatMirror_correct (runs without truncation)** — the FULLY MIRRORED model of
+`bytesconv.ParseFloat(s, 64)` returns exactly what `parseFloatSpec` says, for every byte string
+whose exponent literal is below the clamp, whose mantissa has at most 800 significant digits, and
+on which the slow path drops no non-zero digit.  Superseded by `parseFloatMirror_full`
+(C03TrMirror), which needs no such run condition. -/
+theorem parseFloatMirror_eq_spec (s : Bytes) (hlit : expLit s < 10000)
+    (hmant : ∀ p, recognise s = some p → p.mant < 10 ^ 800) (hnt : NoTrunc s) :
+    (parseFloatMirror s).toExcept = parseFloatSpec s :=
+  parseFloatMirror_of_slow s hlit (fun hu => slowPathMirror_spec s hu hlit hmant hnt)
 
 end C03
